@@ -31,11 +31,13 @@ mutual
   def hasJoinR : RDs Float → Bool
     | .static _ _ => false
     | .filtered ds _ => hasJoinR ds
+    | .xfiltered ds _ => hasJoinR ds
     | .join _ _ => true
     | .fromDs d => hasJoinD d
   def hasJoinD : DDs Float → Bool
     | .static _ _ => false
     | .filtered d _ => hasJoinD d
+    | .xfiltered d _ => hasJoinD d
     | .reduction _ _ _ _ _ => true
     | .fromReport r _ => hasJoinR r
 end
